@@ -95,6 +95,7 @@ func verifyFuncPass(P *Program, DB *ContractDB, fn *ssa.Function, k *FuncContrac
 		vc.hsort[n] = s
 	}
 	vc.safety = k.Flags["safety"]
+	vc.useSeq = k.Flags["seq"]
 	rep := &FuncReport{Func: vc.qname, hsort: vc.hsort}
 	defer func() {
 		if r := recover(); r != nil {
@@ -293,6 +294,12 @@ func (vc *VC) computeFrame(env *cenv, k *FuncContract) {
 func (vc *VC) frameGoal(v string, st *State) string {
 	if strings.HasPrefix(v, "$") || strings.HasPrefix(v, "W!") {
 		return ""
+	}
+	if vc.contract != nil && vc.contract.Flags["libframe"] {
+		// the contract already concedes what a library call may touch
+		if ((strings.HasPrefix(v, "E!") || strings.HasPrefix(v, "C!")) && !vc.modElem[v]) || vc.libVars[v] {
+			return ""
+		}
 	}
 	cur := vc.look(st, v)
 	old := vc.look(vc.entry, v)
